@@ -21,8 +21,15 @@ def _f(t):
     return f"{t}#{_n[0]}"
 
 
+EXPECTED: list = []
+
+
 def leaf(tag):
-    k = sym.concretize(sym.int(_f(tag + ".leaf"), 0, 5))
+    k = sym.concretize(sym.int(_f(tag + ".leaf"), 0, 7))
+    if k == 6:
+        return val.None_(tys.Bool)       # option-typed leaves: options of options arise one level up
+    if k == 7:
+        return val.Some(val.FALSE)
     if k == 0:
         return val.bool_value(sym.concretize(sym.bool(_f(tag + ".b"))))
     if k == 1:
@@ -48,16 +55,20 @@ def value(tag, depth, k=None, maxn=2):
     if k <= 5:
         for j in range(sym.concretize(sym.int(_f(tag + ".n"), 0, maxn))):
             vs.append(value(f"{tag}.{j}", depth - 1, None, 1) if (depth < 2 or j == 0) else leaf(f"{tag}.{j}"))
-    if k == 1:
-        return val.Tuple(*vs)
-    if k == 2:
-        return val.Some(*vs)
-    if k == 3:
-        return val.None_(*[v.type_() for v in vs])
-    if k == 4:
-        return val.Left(iter(vs), [tys.Qubit, tys.Bool])     # any Iterable is accepted, also a one-shot iterator
-    if k == 5:
-        return val.Right([tys.Bool], (x for x in vs))
+    if k <= 5:
+        ts = [x.type_() for x in vs]
+        if k == 1:
+            v, want = val.Tuple(*vs), tys.Sum([ts])
+        elif k == 2:
+            v, want = val.Some(*vs), tys.Sum([[], ts])
+        elif k == 3:
+            v, want = val.None_(*ts), tys.Sum([[], ts])
+        elif k == 4:
+            v, want = val.Left(iter(vs), [tys.Qubit, tys.Bool]), tys.Sum([ts, [tys.Qubit, tys.Bool]])     # any Iterable is accepted, also a one-shot iterator
+        else:
+            v, want = val.Right([tys.Bool], (x for x in vs)), tys.Sum([[tys.Bool], ts])
+        EXPECTED.append((v, want))    # the sum type the helper is documented to build from what it was given
+        return v
     el = leaf(tag + ".el")
     m = sym.concretize(sym.int(_f(tag + ".len"), 0, 2))
     elems = [el] * m
@@ -96,13 +107,15 @@ def _serial_types_ok(v):
 
 
 @lemma("C14", params=[(k,) for k in range(10)], unbounded="integer payloads", bounds="one task per outermost value kind; value expressions of nesting depth <= 1 (quick) / 2 (thorough: first field any depth-1 value with <= 1 field, second field a leaf) with <= 2 fields per level over "
-                     "bool / unit / unit-sum / int (widths 0..6) / float / string leaves, Tuple / Some / None / Left / Right helpers, arrays, lists and "
+                     "bool / unit / unit-sum / int (widths 0..6) / float / string / option-typed leaves, Tuple / Some / None / Left / Right helpers, arrays, lists and "
                      "static arrays of 0..2 elements, function-valued constants", outside="deeper nesting; raw Sum(tag, typ, vals) with inconsistent arguments",
        opts={"max_paths": 400000, "timeout_s": 3000, "optional_clauses": ["helper_tag", "helper_builds_matching_sum_type"]})
 def helper_values_inhabit_their_type(kind):
     _n[0] = 0
+    del EXPECTED[:]
     v = value("v", P(1, 2), kind)
     sym.check("value_inhabits_reported_type", inhabits(v) == [])
+    sym.check("helper_reports_the_sum_of_the_types_it_was_given", all(type_equal(x.type_(), want) for x, want in EXPECTED))
     t = v.type_()
     if isinstance(v, val.Sum):
         sym.check("helper_tag", (isinstance(v, val.Some | val.Right) and v.tag == 1) or (isinstance(v, val.None_ | val.Left | val.Tuple) and v.tag == 0)
